@@ -369,9 +369,28 @@ func runC14(c *Ctx) {
 			verifyScoped(c, g, spawned, ent, key)
 		case "TRANSIENT":
 			// every blocking operation of the goroutine's own function (and nested literals) is classified
-			var visit func(h *eng.Func)
+			var visit func(h *eng.Func, depth int)
 			nops := 0
-			visit = func(h *eng.Func) {
+			seenFn := map[*eng.Func]bool{}
+			visit = func(h *eng.Func, depth int) {
+				if seenFn[h] {
+					return
+				}
+				seenFn[h] = true
+				// the functions of the same package it calls directly run on the same goroutine
+				if depth < 2 {
+					hinfo := h.Info()
+					h.Walk(func(n ast.Node) bool {
+						if call, ok := n.(*ast.CallExpr); ok {
+							if g := p.Func(eng.CalleeName(hinfo, call)); g != nil && g.Decl != nil && g.Pkg == h.Pkg && g.Adopter == nil {
+								if _, isGo := p.Parent(call).(*ast.GoStmt); !isGo {
+									visit(g, depth+1)
+								}
+							}
+						}
+						return true
+					})
+				}
 				for _, op := range h.BlockingOps() {
 					nops++
 					cl := classifyBlocking(c, op)
@@ -385,10 +404,10 @@ func runC14(c *Ctx) {
 					if isGo := l.IsSpawned(); isGo {
 						continue // a nested spawn is its own site
 					}
-					visit(l)
+					visit(l, depth)
 				}
 			}
-			visit(spawned)
+			visit(spawned, 0)
 			c.Check(K("go", key, "transient"), g.Node.Pos(), true, "reviewed transient: "+ent.Reason+" ("+itoa(nops)+" blocking operations classified)", "")
 		}
 	}
